@@ -590,7 +590,7 @@ TIERS = {
                   w_values=(MISSING, "w")),
     "thorough": dict(plan=[("full", 0), ("full", 1), ("full", 2), ("std", 3), ("core", 4)],
                      dplan=[("full", 1), ("std", 2), ("std", 3), ("core", 4)],
-                     w_values=(MISSING, "w", "", 0, None, ["a", "b"])),
+                     w_values=V_VALUES),
 }
 _REFS_W: dict = {}
 
